@@ -27,7 +27,7 @@ META = {
               "handler skipped iff consumed, start/end exactly once in (reverse) stack order, the global log of any run is a concatenation of complete "
               "brackets (C14.brackets_do_not_interleave), pushes are made and flushed in program order; the module lifecycle is part of the model (shutdown requests from any hook, down time, restart event "
               "replaying all start stages on the same element instances): a module that is shut down logs no hook and no handler call until its own restart event (C14.inactive_no_hooks, inactive_until_restart), "
-              "and over all events of all lifecycles every message bracket contains exactly one handler call iff no element consumed the message (C14.handler_iff_unconsumed_everywhere). Tied to the code by running thousands of real "
+              "and over all events of all lifecycles every message bracket contains exactly one handler call iff no element consumed the message (C14.handler_iff_unconsumed_everywhere); the tear-down bracket of every module is complete whatever its join handles yield (C14.teardown_bracket_complete), the join errors are only reported (C14.teardown_reports_join_errors). Tied to the code by running thousands of real "
               "des simulations with scripted elements/handlers and comparing the whole call log with the model's."),
         design_ref="DESIGN.md §5 C14",
         note=("Trusted: Lean kernel; axioms propext/Classical.choice/Quot.sound; hand transcription Rust->Lean (validated by the correspondence runs); "
@@ -109,7 +109,7 @@ META = {
         design_ref="DESIGN.md §5 C06",
         note=("Partial: the scheduler model is an abstraction of tokio validated only by the tie. Acceptance is an executable abstract specification (Spec/ExecSpec.lean); several waiters per condition, notify_waiters, "
               "JoinHandle awaited by another task, timers through the inject queue and cross-module wakes (C06.foreign_wakes_wait_for_next_event: outside C06 as worded, polled at the module's next own event) are covered; "
-              "combinators with concurrent awaits inside one task (select!/join!/timeout), watch/broadcast/oneshot and the LocalSet remote queue are not. Model-refines-specification theorem: spec_accepts_model_partial (hypothesis GoodRun, decidable, exemplified). "
+              "combinators with concurrent awaits inside one task (select!/join!/timeout), watch/broadcast/oneshot and the LocalSet remote queue are not. Model-refines-specification theorems spec_accepts_good_run / spec_accepts_model_partial (Proofs/ExecRefine, ExecOrder; hypothesis GoodRun decidable, exemplified); timeout(d, notified()) modelled with drop semantics and single scheduling per instant. "
               "Trusted: Lean kernel, standard axioms, harness, driver, orchestrator. The model mirrors /repo after the two C06 repairs (event_interval, drain loop in Harness::exec)."),
         technique=_T),
     "C08": dict(
@@ -118,7 +118,7 @@ META = {
               "(C08.connects_refine_paths, connect_step); corollaries for chains of any length: path_iter enumerates the path (walk_enumerates_path), the walk from the far end "
               "is the exact mirror image (walk_mirror), a message is handed exactly once to the far-end owner at send time + sum of hop delays with last_gate/receiver set "
               "(delivered_once_to_far_owner, arrival_time_eq_send_plus_sum_of_hop_delays, header_fields), connect symmetric/idempotent, degree <= 2; a delayed send issued before the wiring is complete "
-              "travels the chain as wired at its send time (delayed_send_uses_wiring_at_send_time, forwardT over a time-indexed wiring). Tied to the code by "
+              "travels the chain as wired at its send time (delayed_send_uses_wiring_at_send_time, forwardT over a time-indexed wiring); header fields are re-stamped on every leg whatever the header held before (header_restamped_per_leg, header_fields_any_prior_header). Tied to the code by "
               "replaying thousands of generated simulations built with the real builder API."),
         design_ref="DESIGN.md §5 C08",
         note=("Trusted: Lean kernel; the three standard axioms; the hand transcription Rust->Lean; harness/driver/orchestrator. Channels are represented by the delay of an idle "
@@ -201,12 +201,12 @@ META = {
     "C20": dict(
         text=("Lean 4 theorems about a typed ownership graph of a stopped des simulation (Runtime/Sim, Profiler, Globals, ModuleTree, ctx/processor/state/PE, async ext, tokio rt, task cell/state, mpsc, driver, TimerQueue/Slot, gates with connection slots, channels, probes, buffer entries, messages, bodies, queued/event connections, event entries in FES / Profiler.remaining / BUF_CTX) "
               "with reference-count drop semantics and the destructors ModuleContext::drop=>dissolve_paths and TimerSlotEntryHandle::drop: no node is freed twice (any graph), dissolve_paths terminates on any wiring incl. rings with fuel #conn+1, dropping never errs within #roots+#edges steps, "
-              "the strong edges not cut by dissolve_paths are ranked for every description of the repaired code, hence every module state, PE, task state, body and probe is freed exactly once. Tied to the code by generated real simulations x stopping points with destructor counters; a second and a third simulation in the same process must reproduce the fresh-process trace including build-time clock readings."),
+              "the strong edges not cut by dissolve_paths are ranked for every description of the repaired code, hence every module state, PE, task state, body and probe is freed exactly once. Tied to the code by generated real simulations x stopping points with destructor counters; a second and a third simulation in the same process must reproduce the fresh-process trace including build-time clock readings. Stopping points include manual stepping without finish(), a failing inner application and panics unwinding through the Runtime; counters are read right after the drop and again after two follow-up simulations, which must complete (helper thread, time-out)."),
         design_ref="DESIGN.md §5 C20",
         note=("Partial: the tie observes counters / queue lengths / event counts only, not the reference graph; tokio drops task futures with the runtime (assumption); order-independence of plain decrements "
               "(dissolve releases deferred in the model - plain_frees_below_gates proves no destructor below a gate removes handles). all_user_objects_freed_once holds for EVERY description of the repaired code "
-              "(every_description_is_closed discharges the closure conditions; no well-formedness hypothesis). Witnesses: backlog_cycle_witness (pre-repair code leaks, F12 fixed by c3eebb0), "
-              "timer_bookkeeping_residue_witness (TimerQueue<->TimerSlot stays allocated, not user-visible)."),
+              "(keepChan = false, hookGlobals = false: queued connections do not keep their channel, the panic hook holds nothing; every_description_is_closed discharges the closure conditions; no well-formedness hypothesis). Witnesses: backlog_cycle_witness (pre-repair code leaks, F12 fixed by c3eebb0), "
+              "timer_bookkeeping_residue_witness (TimerQueue<->TimerSlot stays allocated, not user-visible), hook_holds_globals_witness (a hook capturing Arc<Globals> keeps the module tree alive after a drop without at_sim_end). Roots per stopping point (Own.Stop) documented, lock-poison recovery observed only."),
         technique=_T),
     "C09": dict(
         text=("Lean 4 theorems about the kernel model Net (scripted modules, future event set, buffered emissions flushed by buf_process, shutdown request consumed at the end of the event: deactivate, drop runtime, reset, schedule ModuleRestartEvent; "
